@@ -215,5 +215,5 @@ def _stepper_units():
 
 UNITS += _stepper_units()
 TRUSTED = ["ghost step counter n and recursion iterate(n) (conservative definitions)", "profiling / datetime / logging statements are interpreted with opaque or fresh values (they never reach a branch that matters: proved by exploring both outcomes)"]
-ASSUMPTIONS = ["exact real arithmetic for times; round() is banker's rounding as in CPython", "MPI runs (mpi_run=True) are not covered"]
+ASSUMPTIONS = ["exact real arithmetic for times (with binary floats and times of the order 1e9 the controller's tolerance 1e-6*dt falls below one ulp and interrupts can cost an extra step: outside the model); round() is banker's rounding as in CPython", "MPI runs (mpi_run=True) are not covered"]
 NOT_COVERED = ["bit-identity of the state for autonomous equations follows from state = step^N(initial) independent of the tracker returns; it is not a separate obligation", "adaptive steppers"]
